@@ -168,18 +168,19 @@ def strategyOk (h : Heap) (s : Stmt) : Bool :=
         ([0, 1, 2].all fun j => (t == .q && j == i) || (h' (.num j) == h (.num j) && h' (.den j) == h (.den j)))
       | none, none => true
       | _, _ => false
-  let zOpnd : Opnd → Bool
-    | .ex e => e.ty = .z
-    | .bi _ => true
   match s with
   | .cmp o a b =>
-    if zOpnd a && zOpnd b then
-      [false, true].all fun c =>
-        match execCmpZ c 4 o a b h, execTmp h.abs (.cmp o a b) with
-        | some v, some (.int w) => v == w
-        | none, none => true
-        | _, _ => false
-    else true
+    [false, true].all fun c =>
+      match execCmp c 4 o a b h, execTmp h.abs (.cmp o a b) with
+      | some v, some (.int w) => v == w
+      | none, none => true
+      | _, _ => false
+  | .sgn a =>
+    [false, true].all fun c =>
+      match execSgn c 4 a h, execTmp h.abs (.sgn a) with
+      | some v, some (.int w) => v == w
+      | none, none => true
+      | _, _ => false
   | .assign t i e => chk t i e
   | .compound o t i r => chk t i (expand o t i r)
   | .compoundSh o t i n => chk t i (.sh o (match t with | .z => .zv i | .q => .qv i) n)
